@@ -25,6 +25,20 @@ What this module does on every run:
     master equation (c08.case_tree); when that fails too it is reported as a failing input of the property."""
 import itertools, json
 from fractions import Fraction as F
+
+# text for the integrator to merge into CLAIM of harness/c08.py (this module is not a cnn.py and is not read by tools/mkmanifest.py)
+CLAIM_ADDENDUM = dict(
+    text="Tree clause beyond one edge (coq/Props/C08t.v, closed under the global context): the master equation of the Markovian SIR process as an executable "
+         "function of any graph and any direction-dependent transmission / node-dependent recovery rate functions (coq/Model/Master.v, extracted and compared "
+         "with a numpy master equation on every run); (1) pure and product-form initial conditions lie in the algebraic set M (2x2 minors of the slice "
+         "'j susceptible' vanish: conditional independence across a cut vertex), every n; (2) for EVERY graph and every cut vertex the master-equation vector "
+         "field is tangent to M: the derivative of each minor is an explicit p-independent linear combination of minors (C08t_tangent_eq, C08t_tangent); "
+         "(3b,c) for every graph whose paths are separated by cuts (every tree), on M and p>=0 the pair-based right-hand side at the marginals equals the exact "
+         "unclosed moment system (C08t_closed_eq_open_on_M; closure residual = sum of minors, C08t_residual_eq); (3a) unclosed moment system = marginals of "
+         "the master equation for every p on the edge, the path with 3 nodes, the path with 4 nodes and the 3-star; assembled over the right-hand side "
+         "REGENERATED from EoN/analytic.py: C08t_path3_pure_ic_partial, C08t_path4_pure_ic_partial, C08t_star3_pure_ic_partial.",
+    note="Cited: the ODE lift (linear uniqueness for the minors, nonnegativity of the master solution, Picard-Lindeloef for the pair-based system). Not proved: "
+         "(3a) on trees with >= 5 nodes (evaluated exactly by the extracted definitions on random trees <= 5 nodes, curves compared on all trees <= 5/6 nodes).")
 from . import common as C
 
 COMP = 'master'
